@@ -28,7 +28,7 @@ ASSUMPTIONS = [
 REQUIRED_COUNTERS = {"segmented_runs": 150, "restore_cuts": 100, "plain_cuts": 100, "cuts_before_stateful": 80, "restore_chains": 10}
 REQUIRED_COUNTERS.update({f"cut_before_{k}": 1 for k in G.SAMPLER_KINDS})
 SHARDS = {"quick": 16, "thorough": 16}
-SHARD_WATCHDOG = {"quick": 900, "thorough": 7200}
+SHARD_WATCHDOG = {"quick": 1500, "thorough": 10800}
 
 
 def gen_cases(tier, seed):
@@ -92,7 +92,7 @@ def run_case(desc, ctx):
                 cut = lab[b] if b < n - 1 else 1
                 if cut == 0:
                     continue
-                with quiet(), G.time_limit(180):
+                with quiet(), G.time_limit(G.LIMIT):
                     cal.calibrate(seg)
                 done += seg
                 seg = 0
